@@ -136,7 +136,7 @@ func cmdDump(args []string) int {
 	} else {
 		cs = contractsFor(p, *prop)
 	}
-	work := filepath.Join(verifDir, "work", "dump")
+	work := filepath.Join(outDir(), "work", "dump")
 	os.RemoveAll(work)
 	var results []*FuncResult
 	var allObls []*Obligation
